@@ -78,6 +78,13 @@ func (f *Backquote) expand(s *slip.Scope, arg slip.Object, depth int) slip.Objec
 			xl = append(xl, xa...)
 		}
 		arg = xl
+	case *Function:
+		// The same for #'name and #',name.
+		xl := slip.List{slip.Symbol("function")}
+		if xa, ok := f.expand(s, ta.Args, depth).(slip.List); ok {
+			xl = append(xl, xa...)
+		}
+		arg = xl
 	case slip.Funky:
 		arg = arg.Eval(s, depth+1)
 	}
